@@ -720,7 +720,12 @@ func selTokens(sel *world.Sel) []string {
 		out = append(out, k+"="+v)
 	}
 	for _, e := range sel.ME {
-		vs := append([]string(nil), e.Vals...)
+		vs := []string{}
+		for _, v := range e.Vals {
+			if v != "" { // the printed form `Values:[ a]` cannot tell an empty value apart; it is left out on both sides
+				vs = append(vs, v)
+			}
+		}
 		sort.Strings(vs)
 		out = append(out, strings.TrimSpace(e.Key+" "+e.Op+" "+strings.Join(vs, " ")))
 	}
